@@ -196,6 +196,53 @@ def math_table(args):
     return False, "all %d documented functions map to their namesakes" % len(names)
 
 
+def _dataset():
+    import ast as _ast
+    from func_adl import EventDataset
+
+    class _ast_ds(EventDataset):
+        async def execute_result_async(self, a, title):
+            return a
+    return _ast_ds()
+
+
+def _executor(backend="atlas"):
+    if backend == "atlas":
+        from func_adl_xAOD.atlas.xaod.executor import atlas_xaod_executor
+        return atlas_xaod_executor()
+    if backend == "cms_aod":
+        from func_adl_xAOD.cms.aod.executor import cms_aod_executor
+        return cms_aod_executor()
+    from func_adl_xAOD.cms.miniaod.executor import cms_miniaod_executor
+    return cms_miniaod_executor()
+
+
+def translate(query, backend="atlas", exe=None):
+    "run the real translation of a func_adl query object -> (ExecutionInfo, {file name: text})"
+    import tempfile
+    from pathlib import Path
+    a = query.value()
+    exe = exe or _executor(backend)
+    with tempfile.TemporaryDirectory() as d:
+        info = exe.write_cpp_files(exe.apply_ast_transformations(a), Path(d))
+        files = {f.name: f.read_text() for f in Path(d).iterdir() if f.is_file()}
+    return info, files
+
+
+@driver
+def ttree_label_mismatch(args):
+    "an explicit column-name list whose length differs from the number of values must be refused (both directions)"
+    for nvals, names in [(3, ["a", "b"]), (2, ["a"]), (2, "a"), (2, ["a", "b", "c"])]:
+        sel = "lambda j: (" + ", ".join(["j.pt()", "j.eta()", "j.phi()"][:nvals]) + ")"
+        q = _dataset().SelectMany("lambda e: e.Jets('AntiKt4EMTopoJets')").Select(sel).AsROOTTTree("f.root", "t", names)
+        try:
+            translate(q)
+        except Exception:
+            continue
+        return True, "a query with %d values and column names %r is translated instead of refused" % (nvals, names)
+    return False, "all label-count mismatches are refused"
+
+
 def main():
     name = sys.argv[1]
     args = json.loads(sys.argv[2]) if len(sys.argv) > 2 else {}
